@@ -301,3 +301,42 @@ func (d *Doc) Expected() (*openfgav1.AuthorizationModel, map[string]*openfgav1.T
 	return m, ext
 }
 
+
+// Clone deep-copies a document.
+func (d *Doc) Clone() *Doc {
+	c := &Doc{Module: d.Module, Schema: d.Schema}
+	for _, t := range d.Types {
+		nt := TypeDef{Name: t.Name, Extend: t.Extend}
+		for _, r := range t.Rels {
+			nt.Rels = append(nt.Rels, Relation{Name: r.Name, Expr: r.Expr.Clone()})
+		}
+		c.Types = append(c.Types, nt)
+	}
+	for _, cd := range d.Conds {
+		nc := Cond{Name: cd.Name, Expr: cd.Expr, Params: append([]Param{}, cd.Params...)}
+		c.Conds = append(c.Conds, nc)
+	}
+	return c
+}
+
+func (e *Expr) Clone() *Expr {
+	if e == nil {
+		return nil
+	}
+	c := &Expr{Kind: e.Kind, Name: e.Name, Tupleset: e.Tupleset, Restr: append([]Restriction{}, e.Restr...)}
+	if e.Restr == nil {
+		c.Restr = nil
+	}
+	for _, k := range e.Kids {
+		c.Kids = append(c.Kids, k.Clone())
+	}
+	return c
+}
+
+// Walk visits every expression node (pre-order).
+func (e *Expr) Walk(f func(*Expr)) {
+	f(e)
+	for _, k := range e.Kids {
+		k.Walk(f)
+	}
+}
